@@ -466,7 +466,11 @@ def judgeExtra2 (hNew hOld : HCtx) (op res : Array String) (dump : Option St) : 
           match s.insertM p dat hint with
           | some (m, v) =>
             (hNew, chk (St.sameStructure m d && res.getD 1 "" == toString v) "C02:model,C05:model"
-              "insert-model-differs" (fun _ => s!"p={p} hint={hint} model_handle={v} impl={res.toList} nv={s.nV} nf={s.nF}"))
+              "insert-model-differs" (fun _ => s!"p={p} hint={hint} model_handle={v} impl={res.toList} nv={s.nV} nf={s.nF}") ++
+              -- the hypothesis of the link-invariant theorems (`C02_links_invariant_insert`):
+              -- hull-closing and chain steps find the boundary the geometry promises
+              chk (s.insertSideOK p dat hint) "C02:model" "insert-model-side-condition"
+                (fun _ => s!"p={p} hint={hint} nv={s.nV} nf={s.nF}"))
           | none => (hNew, [⟨"C02:model", "insert-model-failed", s!"p={p} hint={hint}"⟩])
       | _, _, _ => (hNew, [])
     else (hNew, [])
